@@ -129,8 +129,8 @@ func c10Total(c *vrep.Ctx) {
 		if r.Scout() {
 			return
 		}
-		in := []byte(sb.String())
-		keep := append([]byte(nil), in...)
+		in := vSpare([]byte(sb.String()))
+		keep := append([]byte(nil), in[:cap(in)]...)
 		id := strings.Join(names, " ")
 		var msgs []string
 		for ti, cl := range cls {
@@ -165,10 +165,10 @@ func c10Total(c *vrep.Ctx) {
 				if msg != "" {
 					msgs = append(msgs, fmt.Sprintf("%s T=%v: panic: %s", api, ts[ti], msg))
 				}
-				if !bytes.Equal(in, keep) {
+				if !bytes.Equal(in[:cap(in)], keep) {
 					// C04's caller-slice clause, checked here because this harness reaches the rare branches
-					msgs = append(msgs, fmt.Sprintf("%s T=%v: panic: the caller's byte slice was modified", api, ts[ti]))
-					copy(in, keep)
+					msgs = append(msgs, fmt.Sprintf("%s T=%v: panic: the caller's memory (the slice or the spare capacity behind it) was modified", api, ts[ti]))
+					copy(in[:cap(in)], keep)
 				}
 			}
 		}
@@ -233,8 +233,8 @@ func c10Window(c *vrep.Ctx) {
 		cx := ctxs[r.Choose(len(ctxs), "context")]
 		fo := follows[r.Choose(len(follows), "follow")]
 		fill := strings.Repeat(fl.unit, p/len(fl.unit)+1)[:p-1]
-		in := []byte(fill + cx + sym.text + fo)
-		keep := append([]byte(nil), in...)
+		in := vSpare([]byte(fill + cx + sym.text + fo))
+		keep := append([]byte(nil), in[:cap(in)]...)
 		id := fmt.Sprintf("%s[0:%d]+%q+%s+%q", fl.name, p-1, cx, sym.name, fo)
 		var msgs []string
 		for ti, cl := range cls {
@@ -260,9 +260,9 @@ func c10Window(c *vrep.Ctx) {
 				if msg != "" {
 					msgs = append(msgs, fmt.Sprintf("%s T=%v: panic: %s", api, ts[ti], msg))
 				}
-				if !bytes.Equal(in, keep) {
-					msgs = append(msgs, fmt.Sprintf("%s T=%v: panic: the caller's byte slice was modified", api, ts[ti]))
-					copy(in, keep)
+				if !bytes.Equal(in[:cap(in)], keep) {
+					msgs = append(msgs, fmt.Sprintf("%s T=%v: panic: the caller's memory (the slice or the spare capacity behind it) was modified", api, ts[ti]))
+					copy(in[:cap(in)], keep)
 				}
 			}
 		}
@@ -323,7 +323,7 @@ func c10WordSets(c *vrep.Ctx) {
 			}
 		}
 		if !bytes.Equal(keep, cs.In) {
-			msgs = append(msgs, "the caller's bytes were modified")
+			msgs = append(msgs, "the caller's memory (the slice or the spare capacity behind it) was modified")
 		}
 		r.Note = map[string]interface{}{"id": cs.ID, "msgs": msgs}
 	}
@@ -373,8 +373,8 @@ func c10Entities(c *vrep.Ctx) {
 		if cx.name == "twice" {
 			text = cx.pre + ref + " " + ref
 		}
-		in := []byte(text)
-		keep := append([]byte(nil), in...)
+		in := vSpare([]byte(text))
+		keep := append([]byte(nil), in[:cap(in)]...)
 		var msgs []string
 		for ti, cl := range cls {
 			for ai, api := range apis {
@@ -401,8 +401,8 @@ func c10Entities(c *vrep.Ctx) {
 				}
 			}
 		}
-		if !bytes.Equal(in, keep) {
-			msgs = append(msgs, "the caller's bytes were modified")
+		if !bytes.Equal(in[:cap(in)], keep) {
+			msgs = append(msgs, "the caller's memory (the slice or the spare capacity behind it) was modified")
 		}
 		r.Note = map[string]interface{}{"id": fmt.Sprintf("%s %s", ref, cx.name), "msgs": msgs}
 	}
